@@ -610,9 +610,9 @@ fn worker(run: &Run, shard: usize, nshards: usize, deadline: f64) {
 fn main() {
 	let run = Run::from_env("C03", "exploration");
 	init_globals(true);
-	let n_small: u64 = run.tier.pick(6, 40); // exhaustive permutation trees
-	let n_big: u64 = run.tier.pick(10, 90);
-	let n_real: u64 = run.tier.pick(3, 20);
+	let n_small: u64 = run.tier.pick(10, 48); // exhaustive permutation trees
+	let n_big: u64 = run.tier.pick(18, 110);
+	let n_real: u64 = run.tier.pick(5, 24);
 	let orders_per_big: usize = run.tier.pick(24, 60);
 	let deadline = run.tier.pick(300.0, 1200.0);
 	if let Some((i, n)) = run.worker_shard() {
